@@ -113,6 +113,17 @@ pub fn hex(b: &[u8]) -> String {
 /// Coq `N` literal whose little-endian byte encoding is `b` (so the Coq side
 /// recovers the string with `B len lit`).
 pub fn nlit(b: &[u8]) -> String {
+    // coqc 8.16 overflows its stack parsing a single numeral longer than ~3000 bytes: long strings
+    // are written as a parenthesised sum of shifted 2048-byte numerals (same value).
+    const CH: usize = 2048;
+    if b.len() > CH {
+        let parts: Vec<String> = b
+            .chunks(CH)
+            .enumerate()
+            .map(|(k, c)| if k == 0 { nlit(c) } else { format!("N.shiftl {} {}", nlit(c), 8 * CH * k) })
+            .collect();
+        return format!("({})", parts.join(" + "));
+    }
     let mut s = String::with_capacity(2 * b.len() + 2);
     s.push_str("0x");
     let mut started = false;
